@@ -56,6 +56,23 @@ add("C16", "enum", "bounded-exhaustive enumeration of value pairs through the re
     "All ordered pairs of int sequences over {0,1,2} of length <=4 (5) as lists/tuples/mixed, binary lists to length 6 (8), strings and bytes over {a,b,c} to length 4 (5), nested sequences, all pairs of dicts over 3 keys x 5 (8) values, a 59-value cross-type pool, deep chains, and real-size pairs that cross the 2,000,000-point route limit; second pass on a build with the route limit scaled to 4. Oracle: nil diff <=> starlark.Equal; Old()/New() are the arguments in order; replaying the edits rebuilds old and new (recursively through nested diffs); mapping diffs have an edit exactly for added/removed/changed keys.",
     "Trusts the replay oracle and starlark.Equal. The scaled pass differs from /repo only in defaultRouteSize (vtool -const).", "DESIGN.md section 5 C16")
 
+HIST_NOTE = "Trusts the reference model (what each target's latest successful execution consumed) and the project shape's input map; every build is a fresh dawn.Load + Run through the public API on a real directory (tmpfs); intra-build thread schedule is the Go runtime's (schedules are C04/C05/C09's); execution identifiers in records are alpha-renamed for state de-duplication because dawn only compares them for equality."
+add("C01", "hist", "explicit-state BFS over all edit/build histories up to a depth on real project directories; currency model + differential against a from-scratch build",
+    "Breadth-first search over every sequence of <=5 operations (quick; 15-operation alphabet: source, directory-rename/add, constant across pickle width classes, default, helper code, closure, dependency edge, failing body, deleted declared output, full and partial builds) / <=8 over the full 31-operation alphabet within the budget (thorough), de-duplicated on canonical state. After every successful build every target in the closure must be current per the reference model (environment, source contents incl. directory entry names, declared outputs, latest executions of dependencies) and the produced files must equal those of a from-scratch build of the same tree.",
+    HIST_NOTE, "DESIGN.md sections 3, 5 C01")
+add("C02", "hist", "explicit-state BFS over all histories; minimality oracle (every executed target needs a reason the property recognises)",
+    "Same search with an alphabet of neutral edits (comment/blank/docstring edits in three files, out-of-closure source, other package's target added/removed, undeclared output deleted, same-content re-creation of every file on every transition) mixed with real edits and partial builds: in every reachable state a target that is current by the model and none of whose dependencies executes must not execute.",
+    HIST_NOTE + " Load-order and process-restart independence of fingerprints is checked by C08's harness.", "DESIGN.md sections 3, 5 C02")
+add("C13", "hist", "explicit-state BFS with dry runs at every position; twin real build from the same state",
+    "Dry runs of two targets are operations of the BFS (depth <=6 quick): a dry run must execute no body, leave the directory byte-identical to what Load left, report exactly the targets the real build of the same state attempts (superset limited to downstream of the failure when the real build fails), and Build-after-Dry must equal Build directly (executed set and resulting state).",
+    HIST_NOTE, "DESIGN.md section 5 C13")
+add("C14", "hist", "explicit-state BFS with GC (full and index-preferred load) at every position; twin continuation with/without GC",
+    "GC in both load modes is an operation of the BFS, with target removal/addition, stray files and failing builds in the alphabet: records of live labels stay byte-identical, afterwards .dawn/build holds only index.json, an empty temp/ and live records, nothing outside changes, and builds of three targets from the post-GC and pre-GC states execute the same sets.",
+    HIST_NOTE, "DESIGN.md section 5 C14")
+add("C18", "hist", "explicit-state BFS; per-label event automaton on every build of every reachable state",
+    "Every build (incl. failing, always and dry builds) of the BFS is monitored: per label UpToDate | Evaluating Print* (Succeeded|Failed) | lone Failed only for missing/cyclic dependency; Prints only inside; exactly one RunDone, last, carrying Run's error; Evaluating <=> the body ran.",
+    HIST_NOTE + " Output chunking and schedule exploration of Project.Run are parts (b),(c) of the harness (see DESIGN.md).", "DESIGN.md section 5 C18")
+
 NA = {
 }
 for i in range(1, 21):
